@@ -283,6 +283,40 @@ def handleMW (c info : Line) : IO Unit := do
       let (p, tol) := normalP alt (zFixed tn s2)
       IO.println s!"spec {c.id} in=kept res=ok n={n1},{n2} twoU={tu} p={snap pbits p tol}{legacyOf (some p) "" tol}"
 
+/-! ### benchmath.AssumeNothing.Compare, both orders -/
+
+def handleBM (c info : Line) : IO Unit := do
+  let x1 := parseSample c "x1"
+  let x2 := parseSample c "x2"
+  let lims := parseInts (c.getD "lim" "50,25")
+  let lim := (lims.getD 0 50).toNat
+  let limT := (lims.getD 1 25).toNat
+  let pb := info.getD "p" "-"
+  let sb := info.getD "pswap" "-"
+  let tag (e : UStat.Err) := showErr e
+  -- model of anone.go
+  let m12 := UStat.compareAssumeNothing UDist.cdf lim limT x1 x2
+  let m21 := UStat.compareAssumeNothing UDist.cdf lim limT x2 x1
+  let mline := match m12, m21 with
+    | .ok p, .ok q => s!"res=ok n={x1.length},{x2.length} p={snap pb p} pswap={snap sb q}"
+    | .error e, .error _ => s!"res={tag e} n={x1.length},{x2.length} p={snap pb 1} pswap={snap sb 1}"
+    | _, _ => "res=MODEL-ASYMMETRIC"
+  IO.println s!"obs {c.id} {mline}"
+  -- specification: exact permutation two-sided p (twice the smaller one-sided value, capped), each order
+  -- from its own enumeration; all-equal / empty: no number (reported as P = 1 with the error as warning)
+  if x1.isEmpty || x2.isEmpty then
+    IO.println s!"spec {c.id} res=!size n={x1.length},{x2.length} p={snap pb 1} pswap={snap sb 1}"
+  else if Spec.UExact.allEqual x1 x2 then
+    IO.println s!"spec {c.id} res=!equal n={x1.length},{x2.length} p={snap pb 1} pswap={snap sb 1}"
+  else
+    let d12 := specDist (x1 ++ x2) x1.length
+    let d21 := specDist (x2 ++ x1) x2.length
+    let p := d12.two (Spec.UExact.twoUPairs x1 x2)
+    let q := d21.two (Spec.UExact.twoUPairs x2 x1)
+    let chk := if d12.consistent && d21.consistent then "" else " SPEC-INCONSISTENT(enumeration≠group-count)"
+    let sw := if p == q then "" else " SPEC-NOT-SWAP-SYMMETRIC"
+    IO.println s!"spec {c.id} res=ok n={x1.length},{x2.length} p={snap pb p} pswap={snap sb q}{chk}{sw}"
+
 /-! ### distribution cases -/
 
 def snapList (bits : List String) (vals : List Rat) : String :=
@@ -331,6 +365,7 @@ def handle (pending : IO.Ref (Option Line)) (l : Line) : IO Unit := do
         if c.id == l.id then
           pending.set none
           if c.getD "kind" == "dist" then handleDist c l
+          else if c.getD "kind" == "bm" then handleBM c l
           else if c.getD "kind" == "limits" then
             -- the model is parametric in the limits (echo); the specification records the documented defaults
             IO.println s!"obs {c.id} lim={c.getD "lim"}"
